@@ -16,6 +16,8 @@ type Scenario struct {
 	Prog   *Program
 	Script *env.Script
 	Input  map[string]any
+	RawInput  any // if set, this (possibly invalid, possibly non-map) document is passed to Execute instead of Input
+	NormInput any // if set, the schema-normalised input the reference and the trace oracles work with
 	Ref    *RefRun
 	pw     workflow.ExecutableWorkflow
 	prepErr error
